@@ -244,6 +244,12 @@ fn main() {
             par::record_rayon(&m["trace"], seed, reps, &mut r);
             r
         }
+        ("direct", Some("ingestlong")) => {
+            let mut r = Report::default();
+            let seed: u64 = m.get("seed").and_then(|s| s.parse().ok()).unwrap_or(1);
+            ingest::direct_ingestlong(&m["prop"], seed, &mut r);
+            r
+        }
         ("direct", Some("rayontiny")) => {
             let mut r = Report::default();
             par::direct_rayon_tiny(&mut r);
